@@ -402,7 +402,8 @@ class MultiScn(Scenario):
         nodes = []
         for i in range(n or self.n_nodes):
             node = SimNode(c.world, f"n{i}", f"1.0.0.{i + 1}", ip6=f"fd00::{i + 1}")
-            await node.open("udp")
+            # "tunnel": the endpoint is wrapped in a TunnelEndpoint, as ipv8_service does as soon as one overlay asks for anonymity
+            await node.open(getattr(c, "case", {}).get("ep_kind", "udp"))
             node.ovs = {}
             for part in self.parts:
                 scn = SCENARIOS[part]
